@@ -166,10 +166,89 @@ def add_oracles(entries):
             elif all(v in ("exact", "approx") for v in verdicts):
                 rel = "approx"
         e["scalar_oracle"] = rel
+        # does the entry also work when the subject itself is a masked reference?
+        if tag == "method":
+            try:
+                out0, _s, _a = evaluate(e, N + 2, 3, 4, False)
+                out1, _s, _a = evaluate(e, N + 2, 3, 4, True)
+                r0 = out0["result"] if e["kind"] == "array" else out0["self_after"]
+                r1 = out1["result"] if e["kind"] == "array" else out1["self_after"]
+                e["self_masked_ok"] = (r0 == r1 and r0 is not None)
+            except BaseException as ex:  # noqa
+                if isinstance(ex, (KeyboardInterrupt, SystemExit)):
+                    raise
+                e["self_masked_ok"] = False
     return entries
 
 
+def discover_grid():
+    """operators of FixedArray2D / FixedMatrix classes: (class, method, argument kind)"""
+    out = []
+    for cls in sorted(GRID):
+        sample, _ = grid_build(cls, 3, 2, 1, 1)
+        names = [m for m in dir(sample) if m.startswith("__") and m.endswith("__") and m not in SKIP_METHODS and m not in ("__eq__", "__ne__") or m in ("__eq__", "__ne__")]
+        for m in sorted(set(names)):
+            try:
+                if not callable(getattr(sample, m)):
+                    continue
+            except Exception:
+                continue
+            for kind in ("none", "same", "py:int", "py:float", "elem"):
+                subj, vals = grid_build(cls, 3, 2, 2, 3)
+                before = grid_canon(cls, subj)
+                try:
+                    arg, av = (None, None) if kind == "none" else grid_arg(kind, cls, 3, 2, 3, 4)
+                    r = getattr(subj, m)(*([] if kind == "none" else [arg]))
+                except BaseException as e:  # noqa
+                    if isinstance(e, (KeyboardInterrupt, SystemExit)):
+                        raise
+                    continue
+                rcls = type(r).__name__
+                if rcls in GRID and grid_shape(rcls, r) == (3, 2):
+                    k = "array"
+                elif grid_canon(cls, subj) != before:
+                    k = "inplace"
+                else:
+                    continue
+                e = dict(cls=cls, name=m, arg=kind, kind=k, result_class=rcls if k == "array" else cls)
+                if k == "array" and rcls in GRID:
+                    e["result_base"] = GRID[rcls]["base"]
+                # relation to the scalar semantics, measured on several data sets
+                verdicts = []
+                for (a, b) in ((1, 1), (2, 5), (3, 2), (4, 7), (5, 3), (6, 11), (9, 13)):
+                    try:
+                        subj, vals = grid_build(cls, 3, 3, a, b)
+                        arg, av = (None, None) if kind == "none" else grid_arg(kind, cls, 3, 3, a + 1, b + 2)
+                        r = getattr(subj, m)(*([] if kind == "none" else [arg]))
+                        got = grid_canon(rcls if k == "array" else cls, r if k == "array" else subj)
+                        exp = {ij: grid_expected(e, vals, arg, av, ij) for ij in vals}
+                    except BaseException as ex:  # noqa
+                        if isinstance(ex, (KeyboardInterrupt, SystemExit)):
+                            raise
+                        verdicts.append("none")
+                        continue
+                    if got == exp:
+                        verdicts.append("exact")
+                    elif all(approx_equal(got[ij], exp[ij]) for ij in exp):
+                        verdicts.append("approx")
+                    else:
+                        verdicts.append("none")
+                rel = "exact" if all(v == "exact" for v in verdicts) else ("approx" if all(v in ("exact", "approx") for v in verdicts) else "none")
+                if rel == "exact" and GRID[cls]["base"] == "float" and cls.startswith("Float"):
+                    rel = "approx"
+                e["scalar_oracle"] = rel
+                out.append(e)
+    return out
+
+
 if __name__ == "__main__":
+    gents = discover_grid()
+    gdst = os.path.join(os.path.dirname(os.path.abspath(__file__)), "c20_catalogue_grid.json")
+    json.dump(gents, open(gdst, "w"), indent=0)
+    import collections as _c
+    print(len(gents), "grid entries;", _c.Counter(e["scalar_oracle"] for e in gents))
+    if "--grid-only" in sys.argv:
+        sys.exit(0)
     ents = discover()
     ents = add_oracles(ents)
     # unique
